@@ -310,8 +310,10 @@ impl GmWorld {
         for (rid, off, n) in std::mem::take(&mut self.touched) {
             if n == 0 { continue; }
             if let Some((_, fbase, true)) = self.files.get(&rid) {
+                // one op may be several accesses (a stream that delivers its bytes in pieces gives one window per piece):
+                // every page the op touched lies inside a window requested during the op
                 let (lo, hi) = (fbase + off as u64, fbase + (off + n) as u64);
-                if !log.iter().any(|r| r.map && r.index <= lo && hi <= r.index + r.count as u64 * 4096) {
+                if !(lo / 4096..=(hi - 1) / 4096).all(|p| log.iter().any(|r| r.map && r.index <= p * 4096 && (p + 1) * 4096 <= r.index + r.count as u64 * 4096)) {
                     rec.fail("C17", &format!("{}/xen-window-does-not-cover", op), &format!("{} region={} bytes=[{},{}) log={:?}", line, rid, off, off + n, log));
                 }
             }
